@@ -269,4 +269,136 @@ theorem mfi_formula (N : Nat) (p : Nat) (fs : List ℝ) (h0 : 1 ≤ p) (x : Nat 
   simp only [mf_pos _ _ (hx _), mf_neg _ _ (hx _)]
   ring
 
+/-! ### SuperTrend: the Go state machine (first flag, trend, previous closing, final bands) is the documented fold -/
+
+/-- the documented step on the state (upTrend, finalUpper, finalLower, superTrend) -/
+noncomputable def stSpecStep (bu bl pc cl : ℝ) (first : Bool) (st : Bool × ℝ × ℝ × ℝ) : Bool × ℝ × ℝ × ℝ :=
+  if first then (false, bu, bl, bl) else
+  let (up, fu, fl, _) := st
+  let fu' := if Arith.lt bu fu || Arith.gt pc fu then bu else fu
+  let fl' := if Arith.gt bl fl || Arith.lt pc fl then bl else fl
+  if up then (if Arith.le cl fu' then (true, fu', fl', fu') else (false, fu', fl', fl'))
+  else (if Arith.ge cl fl' then (false, fu', fl', fl') else (true, fu', fl', fu'))
+
+/-- one Go step from a state that corresponds to the documented state gives the documented next state and output -/
+theorem st_step_corr (S : Ind.StState ℝ) (T : Bool × ℝ × ℝ × ℝ) (med am cl : ℝ)
+    (hf : S.first = false) (hu : S.upTrend = T.1) (hfu : S.finalUpperBand = T.2.1) (hfl : S.finalLowerBand = T.2.2.1) :
+    let S' := (Ind.superTrendStep S med am cl).1
+    let T' := stSpecStep (med + am) (med - am) S.previousClosing cl false T
+    S'.first = false ∧ S'.upTrend = T'.1 ∧ S'.finalUpperBand = T'.2.1 ∧ S'.finalLowerBand = T'.2.2.1 ∧
+      S'.previousClosing = cl ∧ (Ind.superTrendStep S med am cl).2 = T'.2.2.2 := by
+  obtain ⟨up, fu, fl, stv⟩ := T
+  simp only at hu hfu hfl
+  simp only [Ind.superTrendStep, stSpecStep, hf, hu, hfu, hfl, Bool.false_eq_true, if_false]
+  cases up <;> simp only [Bool.false_eq_true, if_false, if_true] <;> (repeat' split) <;> simp_all
+
+theorem st_first_corr (S : Ind.StState ℝ) (med am cl : ℝ) (hf : S.first = true) (hu : S.upTrend = false) :
+    let S' := (Ind.superTrendStep S med am cl).1
+    let T' := stSpecStep (med + am) (med - am) 0 cl true (false, 0, 0, 0)
+    S'.first = false ∧ S'.upTrend = T'.1 ∧ S'.finalUpperBand = T'.2.1 ∧ S'.finalLowerBand = T'.2.2.1 ∧
+      S'.previousClosing = cl ∧ (Ind.superTrendStep S med am cl).2 = T'.2.2.2 := by
+  simp [Ind.superTrendStep, stSpecStep, hf, hu]
+
+/-- the documented fold over positions -/
+noncomputable def stSpecFold (N : Nat) (PA PB PC : PS ℝ) : Nat → Bool × ℝ × ℝ × ℝ :=
+  PS.cumulState N PA.start (false, (0 : ℝ), (0 : ℝ), (0 : ℝ)) (fun acc i =>
+    stSpecStep (PA.val i + PB.val i) (PA.val i - PB.val i) (PC.val (i - 1)) (PC.val i) (i == PA.start) acc)
+
+theorem agree_supertrend_scan {x : Nat → Nat → ℝ} {a b c : Sig ℝ} {PA PB PC : PS ℝ} (N : Nat)
+    (ha : Agree x a PA) (hb : Agree x b PB) (hc : Agree x c PC) (hs1 : PA.start = PB.start) (hs2 : PA.start = PC.start) :
+    Agree x (Sig.scan3 (Ind.StState ℝ) ⟨true, false, Ind.zero, Ind.zero, Ind.zero⟩ Ind.superTrendStep a b c)
+      ⟨PA.start, fun i => (stSpecFold N PA PB PC i).2.2.2⟩ := by
+  have hoffa := ha.offD
+  constructor
+  · simp [off, ha.1, hb.1, hc.1, join2, ← hs1, ← hs2]
+  · intro i hi
+    simp only at hi
+    simp only [den, hoffa, stSpecFold, PS.cumulState, PS.tabVal_eq, scanOut3]
+    set s := PA.start with hsdef
+    set A := fun m => den x a (s + m) with hA
+    set B := fun m => den x b (s + m) with hB
+    set C := fun m => den x c (s + m) with hC
+    have eA : ∀ m, A m = PA.val (s + m) := fun m => ha.2 _ (by omega)
+    have eB : ∀ m, B m = PB.val (s + m) := fun m => hb.2 _ (by omega)
+    have eC : ∀ m, C m = PC.val (s + m) := fun m => hc.2 _ (by omega)
+    set f : (Bool × ℝ × ℝ × ℝ) → Nat → (Bool × ℝ × ℝ × ℝ) := fun acc i =>
+      stSpecStep (PA.val i + PB.val i) (PA.val i - PB.val i) (PC.val (i - 1)) (PC.val i) (i == s) acc with hf
+    set T := PS.recG (f (false, (0 : ℝ), (0 : ℝ), (0 : ℝ)) s) (fun acc k => f acc (s + k + 1)) with hT
+    set init : Ind.StState ℝ := ⟨true, false, Ind.zero, Ind.zero, Ind.zero⟩ with hinit
+    have key : ∀ m,
+        let S' := scanSt3 Ind.superTrendStep init A B C (m + 1)
+        S'.first = false ∧ S'.upTrend = (T m).1 ∧ S'.finalUpperBand = (T m).2.1 ∧ S'.finalLowerBand = (T m).2.2.1 ∧
+          S'.previousClosing = C m ∧
+          (Ind.superTrendStep (scanSt3 Ind.superTrendStep init A B C m) (A m) (B m) (C m)).2 = (T m).2.2.2 := by
+      intro m
+      induction m with
+      | zero =>
+        have h := st_first_corr init (A 0) (B 0) (C 0) rfl rfl
+        simp only [scanSt3]
+        have eT : T 0 = stSpecStep (A 0 + B 0) (A 0 - B 0) 0 (C 0) true (false, 0, 0, 0) := by
+          simp only [hT, PS.recG, hf, eA, eB, eC, Nat.add_zero, beq_self_eq_true]
+          simp [stSpecStep]
+        rw [eT]
+        exact h
+      | succ m ih =>
+        obtain ⟨h1, h2, h3, h4, h5, _⟩ := ih
+        have h := st_step_corr (scanSt3 Ind.superTrendStep init A B C (m + 1)) (T m) (A (m + 1)) (B (m + 1)) (C (m + 1)) h1 h2 h3 h4
+        have eT : T (m + 1) = stSpecStep (A (m + 1) + B (m + 1)) (A (m + 1) - B (m + 1))
+            (scanSt3 Ind.superTrendStep init A B C (m + 1)).previousClosing (C (m + 1)) false (T m) := by
+          simp only [hT, PS.recG]
+          simp only [hf]
+          have hne : (s + m + 1 == s) = false := by
+            simp only [beq_eq_false_iff_ne, ne_eq]; omega
+          rw [hne, h5, eA, eB, eC, eC]
+          have e1 : s + m + 1 - 1 = s + m := by omega
+          rw [e1]
+          rfl
+        rw [eT]
+        simp only [scanSt3] at h ⊢
+        exact h
+    exact (key (i - s)).2.2.2.2.2
+
+theorem atr_start (N k p : Nat) (hp : 1 ≤ p) (x : Nat → Nat → ℝ) :
+    (Spec.atr N (Spec.maOf k p) (PS.input (x 0)) (PS.input (x 1)) (PS.input (x 2))).start = Ind.atrIdle (Ind.maOf k p) := by
+  unfold Spec.maOf Ind.maOf
+  split <;> simp [Spec.atr, Spec.ma, Spec.trueRange, Ind.atrIdle, Ind.maIdle, PS.sma, PS.over, PS.map, PS.msum, PS.map3, PS.prev,
+    PS.input, PS.ema, PS.recAvg, PS.smma, PS.rma, PS.wma, Spec.hma, PS.map2, PS.scale, Spec.halfRound, Ind.halfRound,
+    Spec.roundSqrt, Ind.roundSqrt] <;> omega
+
+theorem superTrend_formula (N : Nat) (k p : Nat) (fs : List ℝ) (h0 : 1 ≤ p) (x : Nat → Nat → ℝ) :
+    ∃ e ps, lookup "SuperTrend" [k, p] fs = some e ∧ Spec.formulas N "SuperTrend" [k, p] fs x = some ps ∧
+      List.Forall₂ (Agree x) e.outs ps := by
+  refine ⟨_, _, rfl, rfl, ?_⟩
+  refine List.Forall₂.cons ?_ List.Forall₂.nil
+  simp only [Ind.superTrend, Ind.i0, Ind.i1, Ind.i2, List.getD_cons_zero, List.getD_cons_succ]
+  set a := Ind.atrIdle (Ind.maOf k p) with ha
+  set mult := fs.getD 0 Ind.zero with hmult
+  have hst := atr_start N k p h0 x
+  have hA : Agree x (Sig.skip a (Ind.divBy Ind.two (Ind.add (Sig.input 0) (Sig.input 1))))
+      ⟨a, (PS.over Spec.two (PS.input (x 0) + PS.input (x 1))).val⟩ := by
+    unfold_light
+    apply Sig.Agree.cast
+    agree_core N
+    all_goals (first | (simp; done) | (intro i hi; simp [Ind.two, Spec.two]; done) | (intro i hi; rfl))
+  have hB0 : Agree x (Ind.mulBy mult (Ind.atr (Ind.maOf k p) (Sig.input 0) (Sig.input 1) (Sig.input 2)))
+      (PS.scale mult (Spec.atr N (Spec.maOf k p) (PS.input (x 0)) (PS.input (x 1)) (PS.input (x 2)))) := by
+    unfold_light
+    agree_tac N
+  have hB : Agree x (Ind.mulBy mult (Ind.atr (Ind.maOf k p) (Sig.input 0) (Sig.input 1) (Sig.input 2)))
+      ⟨a, fun i => mult * (Spec.atr N (Spec.maOf k p) (PS.input (x 0)) (PS.input (x 1)) (PS.input (x 2))).val i⟩ :=
+    hB0.cast (by simp only [PS.scale, PS.map]; rw [hst]) (fun i _ => by simp only [PS.scale_val]; exact mul_comm _ _)
+  have hC : Agree x (Sig.skip a (Sig.input 2)) ⟨a, (PS.input (x 2)).val⟩ := by
+    apply Sig.Agree.cast
+    agree_core N
+    all_goals (first | (simp; done) | (intro i hi; rfl))
+  have h := agree_supertrend_scan N hA hB hC rfl rfl
+  refine h.cast ?_ ?_
+  · simp only [Spec.superTrendFold, PS.cache_start]; rw [hst]
+  · intro i _
+    simp only [Spec.superTrendFold, stSpecFold, stSpecStep, PS.cache_start, PS.cache_val]
+    rw [hst]
+    have z : (Spec.zero : ℝ) = 0 := by simp [Spec.zero]
+    simp only [z]
+    rfl
+
 end C01
